@@ -20,6 +20,12 @@ def spec(th, seed):
         units += [U('C18_pow2mult.p%d.O0' % p, SRC1, 'plainO0', defs=['-DC18_PART=%d' % p], args=LIGHT, scale=0.02) for p in (1, 3, 5)]
         units += [U('C18_pow2mult.p%d.simd-avx2' % p, SRC1, 'plain', defs=['-DC18_PART=%d' % p] + SIMD, args=LIGHT, scale=0.05) for p in (3, 4, 5)]
         units.append(U('C18_bitfield.simd-avx2', SRC2, 'plain', defs=SIMD, args=LIGHT, scale=0.05))
+    # constant-argument supplement (mon/constarg.cpp): scalar arguments as compile-time constants vs the same values read from volatiles; results must be bitwise identical
+    units.append(U('C18_constarg', 'mon/constarg.cpp', 'plain', defs=['-DCONST_PROP=5']))
+    if th:
+        units.append(U('C18_constarg.clang', 'mon/constarg.cpp', 'clang', defs=['-DCONST_PROP=5']))
+        units.append(U('C18_constarg.O3', 'mon/constarg.cpp', 'plainO3', defs=['-DCONST_PROP=5']))
+        units.append(U('C18_constarg.O1', 'mon/constarg.cpp', 'plainO1', defs=['-DCONST_PROP=5']))
     return {
         'units': units,
         'rule': ('power-of-two family (isPowerOfTwo, next/prev/ceil/floor/roundPowerOfTwo, gtx/bit aliases, highest/lowestBitValue), integer log2, '
